@@ -84,3 +84,11 @@ _BOUNDARIES = '\n\r\x0b\x0c\x1c\x1d\x1e\x85  '
                 "(then '\\n'.join(xs).splitlines() == xs)")
 def plain_lines(xs):
     return all(not any(b in x for b in _BOUNDARIES) for x in xs) and (len(xs) == 0 or xs[-1] != '')
+
+
+@rec('(list[str]) -> list[str]')
+def no_star_imports(lines):
+    """The lines that do not contain a star import, in order (what the dump keeps of a part's source)."""
+    if len(lines) == 0:
+        return []
+    return no_star_imports(lines[:len(lines) - 1]) + ([] if ' import *' in lines[len(lines) - 1] else [lines[len(lines) - 1]])
